@@ -40,6 +40,9 @@ def impl_case(case):
             return ("raised", type(e).__name__, str(e)[:120])
     l1, l2 = ev(p1), ev(p2)
     lloc = loc_t(getattr(lsp, "location", None)) if type(sp).__name__ not in ("EnforceTerminalGCContent", "SequenceLengthBounds") else None
+    if float(getattr(lsp, "boost", 1.0)) != float(getattr(sp, "boost", 1.0)):
+        return term, 1, lloc, ("raised", "BoostChanged", "localized copy has boost %r, the specification %r" % (lsp.boost, sp.boost)), l2, \
+            ev_out(g1), ev_out(g2), type(sp).__name__
     return term, 1, lloc, l1, l2, ev_out(g1), ev_out(g2), type(sp).__name__
 
 
@@ -54,6 +57,8 @@ def oracle_common(case, out):
     if out[0] != "ok":
         return "implementation raised/hung: %r" % (out[:3],), None
     term, kind, lloc, l1, l2, g1, g2, cls = out[1]
+    if kind == 1 and isinstance(l1, tuple) and l1 and l1[0] == "raised" and l1[1] == "BoostChanged":
+        return "the localized copy does not keep the specification's boost (its weighted score change differs from the global one): %s" % l1[2], None
     if kind == 1 and (isinstance(l1, tuple) and l1 and l1[0] == "raised" or isinstance(l2, tuple) and l2 and l2[0] == "raised"):
         return "evaluating the localized specification raised: %r" % ((l1, l2),), None
     return None, out[1]
@@ -126,8 +131,20 @@ def gen_cases(rng, tier):
             loc = dict(desc[1]).get("location")
             # windows: inside / straddling / outside / touching the span
             a0, b0 = (0, n) if loc is None else (loc[0], loc[1])
+            if rng.random() < 0.3:
+                # any class can be used as a weighted objective: the localized copy must keep the weight
+                desc2 = (desc[0], tuple(sorted(dict(desc[1], boost=rng.choice([0.5, 2.0, 4.0])).items())))
+                try:
+                    init_spec(desc2, seq, "objective")
+                    desc, role = desc2, "objective"
+                except Exception:  # noqa  (class without a boost parameter / not usable as an objective)
+                    pass
             mode = rng.random()
-            if mode < 0.5:
+            if mode < 0.25:
+                # tiny windows anywhere around the span (codon / window border arithmetic)
+                a = rng.randint(max(0, a0 - 2), min(n - 1, max(a0, b0 + 1)))
+                b = min(n, a + rng.choice([1, 1, 2, 3]))
+            elif mode < 0.5:
                 a = rng.randint(a0, max(a0, b0 - 1))
                 b = rng.randint(a + 1, max(a + 1, min(n, a + rng.choice([1, 2, 3, 5, 8]))))
             elif mode < 0.75:
